@@ -42,6 +42,12 @@ class C19(FlowCheck):
             flat([L(10), ['F', 4, 1, 5, 0], ['P', V(4)], ['N', []], L(20), ['P', 7]]),
             struct({'main': [['line', 10], ['for', 4, 5, 1, 0, 1, [['print', V(4)]]], ['line', 20], ['print', 7]],
                     'subs': []}),
+            # the end / step of a FOR are read once: N%=6:FOR I%=1 TO N%:PRINT I%:N%=N%-1:NEXT prints 1..6
+            flat([L(10), ['=', 7, 6], ['F', 4, 1, V(7), 1], ['P', V(4)], ['=', 7, ['-', V(7), 1]], ['N', []]]),
+            flat([L(10), ['=', 0, 4], ['=', 1, 1], ['F', 4, 1, V(0), V(1)], ['P', V(4)], ['=', 0, 1], ['=', 1, 3],
+                  ['N', [4]]]),
+            struct({'main': [['line', 10], ['let', 0, 3], ['for', 4, 1, V(0), 1, 1, [['print', V(4)], ['gosub', 1000]]]],
+                    'subs': [[1000, [['let', 0, ['-', V(0), 2]]]]]}),
             # D19a: zero-trip inner loop closed by NEXT J, I
             flat([L(10), ['F', 4, 1, 2, 1], ['F', 5, 2, 1, 1], ['P', 9], ['N', [5, 4]], L(20), ['P', 4]]),
             # D19b: counter leaves the 16-bit range downwards / upwards
